@@ -114,9 +114,9 @@ func myErr(num uint16, format string, a ...interface{}) *mysql.MySQLError {
 
 // ---- internal value kinds used by the evaluator ----
 
-type decVal string         // canonical decimal text
-type ciStr string          // case-insensitively compared string
-type rowVal []interface{}  // row constructor (a, b)
+type decVal string          // canonical decimal text
+type ciStr string           // case-insensitively compared string
+type rowVal []interface{}   // row constructor (a, b)
 type defaultMarker struct{} // bare DEFAULT keyword
 
 var jsonRawType = reflect.TypeOf(json.RawMessage{})
